@@ -565,9 +565,11 @@ def forceLoop (frc : Closure → MSt → Res PVal × MSt) : Nat → PVal → MSt
     | (.fuelOut, st) => (.fuelOut, st))
   | _ + 1, v, st => (.ok v, st)
 
-/-- what a dethunk site does with a closure it finds: call it, and what it yields, until a value that is no closure comes out -/
+/-- what a dethunk site does with a closure it finds: call it, and what it yields, until a value that is no closure comes out.
+(The loop counter is the request's fuel + 2: a deferred value is met at least two levels below the root, so this never runs out
+when the algorithm does not — `GqlProofs/PlanFuel.lean`.) -/
 def forceAll (c : Ctx) (alt : Alt) (fuel : Nat) : Closure → MSt → Res PVal × MSt :=
-  fun cl st => forceLoop (force c alt fuel) fuel (.deferred cl) st
+  fun cl st => forceLoop (force c alt fuel) (fuel + 2) (.deferred cl) st
 
 /-- one container of the breadth-first pass (`dethunkMapBreadthFirst` / `dethunkListBreadthFirst`): its entries in order; a closure
 is called and replaced, then maps and lists are queued -/
